@@ -23,7 +23,7 @@ TRUSTED = [
     "Props/C15TreeGen.lean proves every generated definition equal to / in simulation with Model/NJ.lean, Model/UPGMA.lean for all "
     "arguments and the whole loops (gen_upgma_eq, gen_nj_eq)",
     "translator/c15_dist2lean.py (ast of fast_distance._hamming/_jc69_from_matrix/_tn93_from_matrix/_logdetcommon/_paralinear/_logdet/"
-    "get_matrix_diff_coords and pairwise_distance_numba.fill_diversity_matrix -> Gen/C15Dist.lean, every run) and the numpy "
+    "get_matrix_diff_coords/TN93Pair.__init__/_PairwiseDistance._expand and pairwise_distance_numba.fill_diversity_matrix -> Gen/C15Dist.lean, every run) and the numpy "
     "primitives of Model/DistanceNumpy.lean (4x4, exact rationals, numpy.log uninterpreted, log(a/sqrt b) = log a - log b / 2); "
     "Props/C15Gen.lean proves every generated definition equal to the hand model for all arguments",
     "hand-written models lean/CogentModel/Model/{Distance,NJ,UPGMA}.lean of fast_distance / nj / UPGMA "
